@@ -682,6 +682,9 @@ macro_rules! arrs {
             }
             fn contents(&self) -> &[u8] { match self { $(Arr::$v(a) => &a[..]),* } }
             fn capacity(&self) -> usize { match self { $(Arr::$v(a) => a.capacity()),* } }
+            fn probe(&mut self) -> Option<usize> {
+                match self { $(Arr::$v(a) => catch(|| with_buffer(&mut *a, |b| b.remaining())).ok()),* }
+            }
             fn act<'d>(&'d mut self, act: &Act, cx: &mut Cx, avail: usize) -> Exit<'d> {
                 match self { $(Arr::$v(a) => act_on(a, act, cx, avail)),* }
             }
@@ -781,6 +784,28 @@ impl Store {
             Store::Slice(_, n) => *n,
             Store::SRef(_, n) => *n,
             Store::Raw(_, n, c) => *n - (*c).min(*n),
+        }
+    }
+    /// `remaining()` of a fresh outermost view that is dropped unused (its destructor adds 0):
+    /// lets the harness see an over-sized view before anything is written through it
+    fn probe_room(&mut self) -> Option<usize> {
+        match self {
+            Store::Vec(v) => catch(|| with_buffer(&mut *v, |b| b.remaining())).ok(),
+            Store::Arr(a) => a.probe(),
+            Store::Slice(b, n) => catch(|| with_buffer(&mut b[..*n], |b| b.remaining())).ok(),
+            Store::SRef(b, n) => {
+                // on a temporary reference: the narrowing to 0 bytes hits only the temporary
+                let mut s: &mut [u8] = &mut b[..*n];
+                let p: *mut &mut [u8] = &mut s;
+                catch(|| with_buffer(unsafe { &mut *p }, |b| b.remaining())).ok()
+            }
+            Store::Raw(b, n, c) => {
+                if *c != 0 {
+                    return Some(*n - (*c).min(*n));
+                }
+                let mut tmp = 0usize;
+                catch(|| BufferRef::new(&mut b[..*n], &mut tmp).remaining()).ok()
+            }
         }
     }
     fn ctx(&self) -> String {
@@ -929,6 +954,14 @@ fn store_loop(spec: &StoreSpec, src: &mut dyn Src, announce: bool) {
 fn store_act(store: &mut Store, act: &Act, cx: &mut Cx, spec: &StoreSpec) {
     let old = store.contents().to_vec();
     let avail = store.avail();
+    let probed = store.probe_room();
+    if probed != Some(avail) {
+        cx.fail("C19/view-capacity", format!("a fresh view of the container has remaining()={:?}, the container has room for {}", probed, avail));
+        if probed.map(|p| p > avail).unwrap_or(false) {
+            // writes through such a view would go past the allocation
+            cx.src.corrupt(&mut cx.fails, &mut cx.counts)
+        }
+    }
     let (resp, log) = store.act(act, cx);
     if let Store::Vec(v) = store {
         if v.len() > v.capacity() {
@@ -1523,12 +1556,11 @@ fn alphabet(kind: usize, room: usize) -> Vec<String> {
             l("init"),
             l("drop"),
         ],
-        // readers
-        _ => vec![
+        // honest readers
+        2 => vec![
             l("setr slice 31323334"),
             l("setr take 3 rep 41"),
             l("setr chain slice 51 fail 5f"),
-            l("setr liar 2 6e"),
             l("setr bufr 2 slice 818283"),
             l("read"),
             l("read 1"),
@@ -1536,11 +1568,65 @@ fn alphabet(kind: usize, room: usize) -> Vec<String> {
             l("w 71"),
             l("init"),
         ],
+        // over-claiming readers (refused by a panic that unwinds through the live views)
+        _ => vec![
+            l("setr liar 2 6e"),
+            l("setr take 3 liar 5 6f"),
+            l("setr chain slice 51 liar 9 6d"),
+            l("read"),
+            l("read 1"),
+            l("open"),
+            l("w 71"),
+            l("init"),
+            l("drop"),
+        ],
     }
+}
+
+/// Sessions in which a panic can unwind through live views (`xp`, `adv`, over-claiming readers) go
+/// last: if a broken library lets such an unwinding reach a destructor with a corrupt counter, std
+/// aborts the process, and whatever the same harness process reported before would be lost.  With
+/// the calm sessions first, the shards at the front keep their oracle reports.
+fn calm_first(all: &[u8]) -> Vec<u8> {
+    let text = String::from_utf8_lossy(all);
+    let mut units: Vec<(bool, String)> = vec![];
+    for line in text.lines() {
+        let start = line.starts_with("new ") || line.starts_with("hash ");
+        if start || units.is_empty() {
+            units.push((false, String::new()));
+        }
+        let u = units.last_mut().unwrap();
+        let t: Vec<&str> = line.split_ascii_whitespace().collect();
+        if t.iter().any(|x| *x == "xp" || *x == "adv" || *x == "liar") {
+            u.0 = true;
+        }
+        u.1.push_str(line);
+        u.1.push('\n');
+    }
+    let mut out = Vec::with_capacity(all.len());
+    for pass in [false, true] {
+        for (wild, body) in &units {
+            if *wild == pass {
+                out.extend_from_slice(body.as_bytes());
+            }
+        }
+    }
+    out
 }
 
 impl Domain for D {
     fn gen(&self, tier: &str, seed: u64, out: &mut dyn Write) {
+        let mut all: Vec<u8> = vec![];
+        self.gen_all(tier, seed, &mut all);
+        out.write_all(&calm_first(&all)).unwrap();
+    }
+    fn runner(&self) -> Box<dyn Runner> {
+        Box::new(R { sess: None })
+    }
+}
+
+impl D {
+    fn gen_all(&self, tier: &str, seed: u64, out: &mut dyn Write) {
         let mut r = Rng::new(seed ^ 0xc19_b0ff);
         let miri = tier == "miri";
         let thorough = tier == "thorough";
@@ -1563,7 +1649,11 @@ impl Domain for D {
                 if is_slicey(kind) && len != 0 {
                     continue;
                 }
+                // Miri: (0,0) and (4,1) for the vectors; 4 bytes for the slice kinds, 0 bytes only for `slice`
                 if miri && (kind == "vec" || kind == "arr") && (cap, len) == (4, 0) {
+                    continue;
+                }
+                if miri && (kind == "sref" || kind == "raw") && cap == 0 {
                     continue;
                 }
                 scripted(out, kind, cap, len);
@@ -1581,7 +1671,7 @@ impl Domain for D {
                         }
                         let room = if sl { cap } else { cap - len };
                         let old = if sl { pat(cap, 0xa0) } else { pat(len, 0xa0) };
-                        for a in 0..3 {
+                        for a in 0..4 {
                             let al = alphabet(a, room);
                             // thorough: length 5 for the richest shapes, 4 elsewhere
                             let l = if thorough { if cap == 2 || cap == 3 { lmax } else { lmax - 1 } } else { lmax };
@@ -1621,14 +1711,11 @@ impl Domain for D {
             }
         }
         // 3. random sessions
-        let (n, nops) = if miri { (60, 12) } else if thorough { (60000, 30) } else { (1500, 24) };
+        let (n, nops) = if miri { (40, 12) } else if thorough { (60000, 30) } else { (1500, 24) };
         for i in 0..n {
             let max_cap = if i % 4 == 0 { 32 } else { 6 };
             let k = 4 + r.below(nops as u64) as usize;
             random_session(&mut r, out, max_cap, k);
         }
-    }
-    fn runner(&self) -> Box<dyn Runner> {
-        Box::new(R { sess: None })
     }
 }
